@@ -58,8 +58,10 @@ def environment(cid):
            plain-sibling     - the user's ONE cache directory (as ~/.cache/replicat is), already used - and used again
                                between the commands - for an unencrypted repository of the same user
            encrypted-sibling - the same with a sibling repository encrypted under another cipher / hash / password
-    debug  root logger at DEBUG (what -vv does), records captured and discarded"""
-    return {'cache': CACHE_ENVS[cid % 4], 'debug': cid % 3 == 0}
+    debug  root logger at DEBUG (what -vv does), records captured and discarded
+    refuse_delete  from the owner's `delete` on, the backend refuses - for good - to delete one chunk object (a permission
+           problem at the provider): delete and clean fail, whatever they wrote before failing is scanned like everything else"""
+    return {'cache': CACHE_ENVS[cid % 4], 'debug': cid % 3 == 0, 'refuse_delete': cid % 2 == 1}
 
 
 class DebugLogging:
@@ -84,6 +86,19 @@ class DebugLogging:
         if self.enabled:
             self.root.setLevel(self.level)
             self.root.removeHandler(self.handler)
+
+
+class RefusingBackend(MemBackend):
+    """once armed, the first chunk object whose deletion is requested can never be deleted"""
+    armed = False
+    refused = None
+
+    def delete(self, name):
+        if self.armed and name.startswith('data/') and self.refused in (None, name):
+            self.refused = name
+            self._note('delete', name)
+            raise PermissionError(f'the provider refuses to delete {name[:24]}...')
+        return super().delete(name)
 
 
 class Sibling:
@@ -138,7 +153,7 @@ def _run_history(rng, scratch, cid, cipher, hashing, env):
         if sibling is not None:
             sibling.use()
     between()
-    be = MemBackend()
+    be = RefusingBackend()
     pw = {'owner': b'pass-owner-' + rng.randbytes(6).hex().encode(), 'shared': b'pass-shared-' + rng.randbytes(6).hex().encode(),
           'indep': b'pass-indep-' + rng.randbytes(6).hex().encode()}
     note1, note2 = f'note-alpha-{rng.randbytes(5).hex()}', f'note-beta-{rng.randbytes(5).hex()}'
@@ -149,9 +164,9 @@ def _run_history(rng, scratch, cid, cipher, hashing, env):
     owner = repolab.Client(be, password=pw['owner'], cache=cache)
     cheap = {'encryption': {'kdf': {'name': 'scrypt', 'n': 4}}}
 
-    def done(cmd, o):
+    def done(cmd, o, may_fail=False):
         outputs.append((cmd, o.stdout, o.stderr))
-        if not o.ok:
+        if not o.ok and not (may_fail and 'refuses to delete' in o.detail):
             failures.append(f'{cmd}: {o.detail}')
         between()
         return o
@@ -197,9 +212,10 @@ def _run_history(rng, scratch, cid, cipher, hashing, env):
         snapshots.append((o.value, 'owner'))
     shutil.rmtree(hollow, ignore_errors=True)
     before_delete = dict(be.objects)
+    be.armed = bool(env.get('refuse_delete'))
     if s1.ok:
-        done('delete', clients['owner'].delete_snapshots([s1.value.name]))
-    done('clean', clients['owner'].clean())
+        done('delete', clients['owner'].delete_snapshots([s1.value.name]), may_fail=be.armed)
+    done('clean', clients['owner'].clean(), may_fail=be.armed)
     shutil.rmtree(tree, ignore_errors=True)
     return {'cid': cid, 'cipher': cipher, 'hashing': hashing, 'log': list(be.log), 'outputs': outputs, 'keyfiles': keyfiles, 'keys': keys,
             'passwords': pw, 'to_file': to_file, 'snapshots': snapshots, 'failures': failures, 'env': env,
@@ -269,6 +285,8 @@ class Lift:
         plains = {}
         self.n_chunks = 0
         for name, data in uploads:
+            if name != 'config' and not name.startswith(('data/', 'snapshots/')):
+                self.problems.append(f'an object outside config / data/ / snapshots/ was written: {name[:60]} ({len(data)} bytes)')
             if name == 'config':
                 items.append(('IObj', ('LOther', 0), cfg_atom))
             elif name.startswith('data/'):
@@ -626,7 +644,7 @@ def check_case(ctx, rep: Report, h, encrypted=True):
     label = f'{h["cipher"][0] if h["cipher"] else "none"}{"-" + str(h["cipher"][1]) if h["cipher"] and h["cipher"][1] else ""}' \
             f'{"/nonce " + str(h["cipher"][2]) if h["cipher"] and len(h["cipher"]) > 2 else ""}/{(h["hashing"] or {"name": "blake2b"})["name"]}'
     env = h.get('env') or environment(cid)
-    label += f' [cache: {env["cache"]}{", debug logging" if env["debug"] else ""}]'
+    label += f' [cache: {env["cache"]}{", debug logging" if env["debug"] else ""}{", one chunk deletion refused" if env.get("refuse_delete") else ""}]'
     replay = {'cid': cid, 'cipher': h['cipher'], 'hashing': h['hashing'], 'seed': h['seed'], 'environment': env}
     rep.count('config:' + label.split(' [')[0])
     rep.count('env:cache=' + env['cache'])
@@ -697,6 +715,10 @@ def check_case(ctx, rep: Report, h, encrypted=True):
     li = {norm_item(i) for i in items}
     rep.traces_validated += len(li)
     rep.evaluations += len(li)
+    if env.get('refuse_delete'):
+        # the failing delete / clean stop early: which of the remaining deletions were still requested depends on the
+        # schedule, so the names of the model that were not sent are not a difference; everything that WAS sent must be expected
+        mi = {x for x in mi if x in li or not x.startswith('["IName"')}
     if mi != li:
         only_m = sorted(mi - li)[:2]
         only_l = sorted(li - mi)[:2]
